@@ -163,6 +163,11 @@ def gen_plan(rng, profile="accounting", tier="quick", knobs=None):
             o["flow"] = rng.random() < 0.6
             o["upd"] = upd
             o["root"] = rng.random() < 0.7
+            if rng.random() < 0.12 and upd:
+                # a contribution is booked, (the book is valued,) the contribution is reversed and booked again as income: the day's
+                # net flows return to exactly zero while the value keeps the amount
+                o["rebook"] = True
+                o["valued_between"] = rng.random() < 0.7
         if o.get("upd") is False:
             in_batch = True
         elif "upd" in o or kind == "flatten":
@@ -817,8 +822,18 @@ class TreeSim(taps.Sim):
                 p, sspec = self.strats[0]
                 node = root
             amt = o["frac"] * (self.cfg["capital"] or 1e5)
-            self.fire("flow_shock" if o["flow"] else "nonflow_adjust")
-            node.adjust(amt, update=o["upd"], flow=o["flow"])
+            if o.get("rebook") and not self.in_batch:
+                self.fire("contribution_rebooked_as_income")
+                amt = abs(amt)
+                node.adjust(amt, update=True, flow=True)
+                if o.get("valued_between"):
+                    self.guarded(lambda: self.root.value, "valuation between the bookings")
+                node.adjust(-amt, update=True, flow=True)
+                node.adjust(amt, update=True, flow=False)
+                o = dict(o, upd=True)
+            else:
+                self.fire("flow_shock" if o["flow"] else "nonflow_adjust")
+                node.adjust(amt, update=o["upd"], flow=o["flow"])
             done = True
         elif kind == "flatten":
             for c in node.children.values():
